@@ -371,6 +371,9 @@ def flag_cuts_from(cfg, sources, flag):
     from .flow import reaching_defs
     vals = set()
     for s in sources:
+        if assigns(s, flag) and isinstance(s.ast, ast.Assign) and isinstance(s.ast.value, ast.Constant):
+            vals.add(bool(s.ast.value.value))      # the source itself sets the flag
+            continue
         for d in reaching_defs(cfg, s, flag):
             if d.kind == "stmt" and isinstance(d.ast, ast.Assign) and isinstance(d.ast.value, ast.Constant):
                 vals.add(bool(d.ast.value.value))
